@@ -550,6 +550,165 @@ func microsOf(t time.Time) int64 {
 }
 
 func (r *Reader) readV1(position int64, msg *Message) (nextPosition int64, err error) {""")]),
+ ("batch reader: labelled break instead of return at EOF", [("pkg/message/format.go", """	for ; i < maxCount && position <= maxPosition; i++ {
+		next, err := r.reader(position, &msgs[i])
+		switch {
+		case err == nil:
+			position = next
+		case errors.Is(err, io.EOF):
+			return msgs[:i], nil
+		default:""", """scan:
+	for ; i < maxCount && position <= maxPosition; i++ {
+		next, err := r.reader(position, &msgs[i])
+		switch {
+		case err == nil:
+			position = next
+		case errors.Is(err, io.EOF):
+			break scan
+		default:""")]),
+ ("both cursors pick their segment through one small method", [("log.go", """	rdr, segmentIndex := segment.Consume(l.readers, offset)
+
+	nextOffset, msgs, err := rdr.Consume(offset, maxCount)""", """	rdr, segmentIndex := l.pick(offset)
+
+	nextOffset, msgs, err := rdr.Consume(offset, maxCount)"""), ("log.go", """	rdr, segmentIndex := segment.Consume(l.readers, offset)
+	for {
+		nextOffset, msgs, err := rdr.ConsumeByKey(key, hash, offset, maxCount)""", """	rdr, segmentIndex := l.pick(offset)
+	for {
+		nextOffset, msgs, err := rdr.ConsumeByKey(key, hash, offset, maxCount)"""), ("log.go", "func (l *log) Get(offset int64) (message.Message, error) {", """func (l *log) pick(offset int64) (*reader, int) {
+	return segment.Consume(l.readers, offset)
+}
+
+func (l *log) Get(offset int64) (message.Message, error) {""")]),
+ ("Stat sums into a local accumulator struct through a pointer", [("log.go", """		stats.Segments += segStats.Segments
+		stats.Messages += segStats.Messages
+		stats.Size += segStats.Size
+	}
+	return stats, nil""", """		acc := &stats
+		acc.Segments += segStats.Segments
+		acc.Messages += segStats.Messages
+		acc.Size += segStats.Size
+	}
+	return stats, nil""")]),
+ ("Recover: unknown-version test inverted", [("pkg/segment/segment.go", """		if indexVersion != index.VUnknown {
+			if err := index.Write(s.Index, s.Offset, indexVersion, params, restoreIndex); err != nil {
+				return fmt.Errorf("restore index write: %w", err)
+			}
+		}""", """		if indexVersion == index.VUnknown {
+			// the probe failed: leave it to the lazy rebuild
+		} else if err := index.Write(s.Index, s.Offset, indexVersion, params, restoreIndex); err != nil {
+			return fmt.Errorf("restore index write: %w", err)
+		}""")]),
+ ("Open: eager migration loop in a helper", [("log.go", """		if opts.Version.EagerVersionMigrate {
+			for _, seg := range segments {
+				if err := seg.Migrate(opts.Version.NewSegmentsVersion.messages, opts.Version.NewSegmentsVersion.index, params); err != nil {
+					return nil, fmt.Errorf("open migrate: %w", err)
+				}
+			}
+		}""", """		if opts.Version.EagerVersionMigrate {
+			if err := migrateAll(segments, opts.Version.NewSegmentsVersion, params); err != nil {
+				return nil, err
+			}
+		}"""), ("log.go", "func (l *log) Get(offset int64) (message.Message, error) {", """func migrateAll(segments []segment.Segment, v Version, params index.Params) error {
+	for _, seg := range segments {
+		if err := seg.Migrate(v.messages, v.index, params); err != nil {
+			return fmt.Errorf("open migrate: %w", err)
+		}
+	}
+	return nil
+}
+
+func (l *log) Get(offset int64) (message.Message, error) {""")]),
+ ("delete: kept version chosen with an if chain", [("log.go", """		switch detected {
+		case message.V1:
+			mversion, iversion = message.V1, index.V1
+		case message.V2:
+			mversion, iversion = message.V2, index.V2
+		}""", """		if detected == message.V1 {
+			mversion, iversion = message.V1, index.V1
+		} else if detected == message.V2 {
+			mversion, iversion = message.V2, index.V2
+		}""")]),
+ ("Backup: stale target index removed through a helper", [("pkg/segment/segment.go", """		if err := os.Remove(targetIndex); err != nil && !errors.Is(err, os.ErrNotExist) {
+			return fmt.Errorf("backup index delete: %w", err)
+		}
+	case err != nil:
+		return fmt.Errorf("backup index copy: %w", err)""", """		if err := removeIfThere(targetIndex); err != nil {
+			return fmt.Errorf("backup index delete: %w", err)
+		}
+	case err != nil:
+		return fmt.Errorf("backup index copy: %w", err)"""), ("pkg/segment/segment.go", "func (s Segment) NeedsReindex() (bool, error) {", """func removeIfThere(path string) error {
+	if err := os.Remove(path); err != nil && !errors.Is(err, os.ErrNotExist) {
+		return err
+	}
+	return nil
+}
+
+func (s Segment) NeedsReindex() (bool, error) {""")]),
+ ("Open: head preparation (recover/check) in a helper", [("log.go", """		switch {
+		case opts.Recover:
+			head := segments[len(segments)-1]
+			if err := head.Recover(params); err != nil {
+				return nil, fmt.Errorf("open recover: %w", err)
+			}
+		case opts.Check:
+			head := segments[len(segments)-1]
+			if err := head.Check(params); err != nil {
+				return nil, fmt.Errorf("open check: %w", err)
+			}
+		}
+
+		if opts.Version.EagerVersionMigrate {""", """		if err := prepareHead(segments[len(segments)-1], opts, params); err != nil {
+			return nil, err
+		}
+
+		if opts.Version.EagerVersionMigrate {"""), ("log.go", "func (l *log) Get(offset int64) (message.Message, error) {", """func prepareHead(head segment.Segment, opts Options, params index.Params) error {
+	switch {
+	case opts.Recover:
+		if err := head.Recover(params); err != nil {
+			return fmt.Errorf("open recover: %w", err)
+		}
+	case opts.Check:
+		if err := head.Check(params); err != nil {
+			return fmt.Errorf("open check: %w", err)
+		}
+	}
+	return nil
+}
+
+func (l *log) Get(offset int64) (message.Message, error) {""")]),
+ ("delete: version of a closed segment detected in a helper", [("log.go", """			mr, err := message.OpenReader(rdr.segment.Log, rdr.segment.Offset)
+			if err != nil {
+				return nil, 0, err
+			}
+			detected = mr.Version()
+			if err := mr.Close(); err != nil {
+				return nil, 0, err
+			}""", """			v, err := storedVersion(rdr.segment)
+			if err != nil {
+				return nil, 0, err
+			}
+			detected = v"""), ("log.go", "func (l *log) Get(offset int64) (message.Message, error) {", """func storedVersion(seg segment.Segment) (message.Version, error) {
+	mr, err := message.OpenReader(seg.Log, seg.Offset)
+	if err != nil {
+		return message.VUnknown, err
+	}
+	v := mr.Version()
+	if err := mr.Close(); err != nil {
+		return message.VUnknown, err
+	}
+	return v, nil
+}
+
+func (l *log) Get(offset int64) (message.Message, error) {""")]),
+ ("Size: version through a local", [("log.go", """	return message.Size(m, l.opts.Version.NewSegmentsVersion.messages) + l.params.Size()""", """	v := l.opts.Version.NewSegmentsVersion
+	recordSize := message.Size(m, v.messages)
+	return recordSize + l.params.Size()""")]),
+ ("GetByTime: exact hit remembered through a pointer instead of a flag", [("log.go", """	found, exact := message.Invalid, false""", """	var found *message.Message"""), ("log.go", """			found, exact = msg, true""", """			m := msg
+			found = &m"""), ("log.go", """			if exact {
+				return found, nil
+			}""", """			if found != nil {
+				return *found, nil
+			}""")]),
 ]
 
 def main():
